@@ -205,6 +205,11 @@ def _worker(args):
                 res['errors'].append(dict(path=pi, error='validation crashed: %r' % (e,), tb=traceback.format_exc()[-1500:]))
         res['queries'] += pv.queries
         res['solver_s'] += pv.solver_time
+        from . import proxy as _px
+        if _px._hashed[0]:
+            res['notes'].append('ASSUMPTION symbolic values served as dictionary keys: compared among themselves by forking on equality; '
+                                'a symbolic key is taken to differ from every concrete key of the same dictionary')
+            res['sym_hash'] = True
         res['cross'] = pv.cross
         for dz in pv.cross_disagreements:
             if dz.get('fatal'):
@@ -525,7 +530,10 @@ def main(argv=None):
             checker_cmd='z3 %s (python API) via /verif/bin/vcheck %s --tier %s' % (_z3v(), pid, tier),
             trusted_base=['z3', 'symx translator (validated per run against float execution)', 'CPython', 'NumPy object arrays'],
         ),
-        assumptions=meta.get('assumptions', []) + ['floats modelled as exact reals; IEEE rounding/overflow/NaN outside the claim'],
+        assumptions=meta.get('assumptions', []) + ['floats modelled as exact reals; IEEE rounding/overflow/NaN outside the claim'] + (
+            ['symbolic values served as dictionary keys in group(s) %s: compared among themselves by forking on equality; a symbolic key is '
+             'taken to differ from every concrete key of the same dictionary' % ', '.join(r['group'] for r in results if r.get('sym_hash'))]
+            if any(r.get('sym_hash') for r in results) else []),
         wall_s=round(wall, 2), violations=nviol,
     )
     evdir = os.environ.get('VERIF_EVIDENCE_DIR') or os.path.join(VERIF, 'evidence')
